@@ -410,6 +410,8 @@ def gen_omen_world(t):
                           max_structs=2, max_vars=2)
     nl = t.between(1, min(3, len(good)))
     levels = sorted(t.sample(good, nl))
+    if len(levels) >= 2 and t.chance(1, 2):
+        levels = t.shuffle(levels)          # probability order is not level order
     probs = worlds._descending_probs(t, "dyadic", len(levels))
     spec["omen_prob"] = [[str(l), p] for l, p in zip(levels, probs)]
     # make the Markov structure likely early
